@@ -34,6 +34,20 @@ class _Any:
     def __bool__(self):
         return True
 
+    def __iter__(self):
+        return iter(())
+
+    def __len__(self):
+        return 0
+
+    def __call__(self, *a, **k):
+        return self
+
+    def __getattr__(self, name):
+        if name.startswith('__'):
+            raise AttributeError(name)
+        return self
+
 
 ANY = _Any()
 
@@ -68,7 +82,7 @@ def invariant(*a, **k):
     return None
 
 
-decreases = modifies = option = local = induct = exclude = invariant
+decreases = modifies = option = local = induct = exclude = use = invariant
 
 
 def evaluate(contract_fn, args, result, olds):
@@ -309,3 +323,8 @@ def json_container(s):
 
 def last_index(s, sub):
     return s.rfind(sub)
+
+
+def at_iteration_start(k, x):
+    """proof hint vocabulary (use(...) clauses); no native meaning is needed"""
+    return x
